@@ -3,6 +3,7 @@ pub mod c06;
 pub mod c08;
 pub mod c17;
 pub mod c18;
+pub mod c19;
 pub mod pk;
 
 use crate::core::Case;
@@ -13,6 +14,7 @@ pub fn cases(prop: &str, tier: &str, seed: u64) -> Option<Vec<Case>> {
         "C06" => c06::cases(tier, seed),
         "C08" => c08::cases(tier, seed),
         "C18" => c18::cases(tier, seed),
+        "C19" => c19::cases(tier, seed),
         "C17" => c17::cases(tier, seed),
         "C02" => pk::c02(tier, seed),
         "C03" => pk::c03(tier, seed),
